@@ -49,7 +49,7 @@ class Stats:
 
 
 # ------------------------------------------------------------------------------ helpers
-BUILD_CMDS = {"leaf", "doomed", "joinid", "apply", "join", "joinon", "joinp", "joinpl", "joinmax", "chain", "mat", "transfer",
+BUILD_CMDS = {"leaf", "doomed", "joinid", "apply", "join", "joinon", "joinb", "joinp", "joinpl", "joinmax", "chain", "mat", "transfer",
               "transferp", "process",
               "unwrap", "rawu", "rawchain", "rawjoin", "conform"}
 
@@ -1352,6 +1352,13 @@ def oracle_C20(cmds, impl, model, stats: Stats):
                     # explicit common columns: the fixed operand has them all, the target lacks one
                     common = set(nxt[4])
                     really = common <= ops[1]["colset"] and not common <= ops[0]["colset"]
+                elif nxt[0] == "joinb":
+                    # the binary operation applied directly, common columns given: its predicate needs a column
+                    # neither operand has
+                    from gen import G
+                    common = set(nxt[4])
+                    really = common <= ops[0]["colset"] and common <= ops[1]["colset"] and \
+                        not G.pred_cols(nxt[5]) <= (ops[0]["colset"] | ops[1]["colset"])
                 else:
                     from gen import G
                     really = not G.pred_cols(nxt[4]) <= (ops[0]["colset"] | ops[1]["colset"])
